@@ -2,15 +2,17 @@
 (* Model-checking / edge-export wrapper for Form (property C16). *)
 EXTENDS Form, Json
 
+\* (the exported state must not have a field called "act" or "to": tools/vlib.py splits the printed
+\* edge record textually at those keys)
 \* Leg R: one linear path per attempt descriptor -- host steps first (the real interleaving is not
 \* controllable from the harness, and each party's own sequence does not depend on it).
 Sched == (lbl'.op \in {"rFund", "dial", "rRelease", "rSend", "rRecv"}) => ~ENABLED HostNext
 
 St == [n |-> n, d |-> d, rRes |-> rRes, hRes |-> hRes, hCon |-> hCon, rCon |-> rCon, dead |-> dead,
-       pool |-> pool, net |-> net, mined |-> mined, act |-> act, out |-> out, rpc |-> rpc, hpc |-> hpc]
+       pool |-> pool, net |-> net, mined |-> mined, active |-> act, out |-> out, rpc |-> rpc, hpc |-> hpc]
 EmitEdge ==
     /\ Sched
     /\ PrintT("EDGE " \o ToJson([from |-> St, act |-> [lbl |-> lbl', d |-> d'], reply |-> out',
           to |-> [n |-> n', d |-> d', rRes |-> rRes', hRes |-> hRes', hCon |-> hCon', rCon |-> rCon', dead |-> dead',
-                  pool |-> pool', net |-> net', mined |-> mined', act |-> act', out |-> out', rpc |-> rpc', hpc |-> hpc']]))
+                  pool |-> pool', net |-> net', mined |-> mined', active |-> act', out |-> out', rpc |-> rpc', hpc |-> hpc']]))
 =============================================================================
